@@ -303,6 +303,14 @@ class SymExec:
         if k == "Index":
             base = self.lvalue(e["e"])
             root = base[1] if len(base) > 1 else None
+            if base[0] == "slice" and self.comp and self.range_of(e["i"]) is None:
+                # element of a sub-slice `&v[k*n..(k+1)*n]` indexed by the component variable
+                p0 = self.eval(e["i"])
+                if isinstance(p0, Poly):
+                    blk0 = self.classify_index(p0)
+                    if blk0 is not None and blk0[0] == 0:
+                        return ("elem", base[1], base[2], base[3])
+                return ("unknown", root)
             if base[0] != "key":
                 return ("unknown", root)
             idx = e["i"]
